@@ -312,6 +312,7 @@ struct Plan {
   int connect_kind = CB_OK_NOW;
   int64_t connect_delay = 0;
   std::vector<std::array<int64_t, 3>> outs;  // how the kernel takes the request bytes: {type, n, delay}
+  int64_t bg_delay = -1;  // >= 0: a second request (to another server) is in flight at the same time; its whole response arrives after this many microseconds
   int cb_rc = 0;  // what the application's callback returns
   long intr_at_recv = 0;  // a signal handler calls events_interrupt() during the n-th recv(); the application then cancels the request
   int want_fd = -1;  // descriptor number the connection's socket() call returns (-1: the kernel's next free one)
@@ -319,10 +320,51 @@ struct Plan {
 };
 static Plan *PL;
 static size_t g_reqlen = 0;
+// the second, concurrent request: fixed small response, judged on its own
+static const char *BG_WIRE = "HTTP/1.1 200 OK\r\nX-Bg: one\r\nY-Bg: two\r\nContent-Length: 4\r\n\r\nbgbg";
+struct BgGot {
+  int callbacks = 0;
+  bool ok = false;
+  std::string why;
+  void *h = nullptr;
+};
+static BgGot *BG;
+static int g_socket_no = 0, g_main_fd = -1;
+static int bg_cb(void *, const struct shim_resp *r) {
+  aw::Pause pz;
+  BgGot &b = *BG;
+  b.callbacks++;
+  if (!r) {
+    b.why = "callback got NULL";
+    return 0;
+  }
+  std::vector<std::pair<std::string, std::string>> want = {{"X-Bg", "one"}, {"Y-Bg", "two"}, {"Content-Length", "4"}};
+  b.ok = r->status == 200 && r->nheaders == 3 && r->bodylen == 4 && r->body && memcmp(r->body, "bgbg", 4) == 0;
+  for (size_t i = 0; b.ok && i < 3; i++)
+    if (want[i].first != r->names[i] || want[i].second != r->values[i]) b.ok = false, b.why = "header #" + std::to_string(i) + " is (\"" + r->names[i] + "\", \"" + r->values[i] + "\")";
+  if (!b.ok && b.why.empty()) b.why = "status/body wrong";
+  if (r->body) {
+    aw::Arm a;
+    free(r->body);
+  }
+  return 0;
+}
 static void on_socket(int fd) {
   Kernel &k = K();
   Sock *s = k.get(fd);
   const Plan &p = *PL;
+  if (g_socket_no++ == 1 && p.bg_delay >= 0) {  // the second socket of the case belongs to the concurrent request
+    InItem it;
+    it.t = IN_DATA;
+    it.data = BG_WIRE;
+    it.delay = p.bg_delay;
+    k.push_in(fd, it);
+    InItem e;
+    e.t = IN_EOF;
+    k.push_in(fd, e);
+    return;
+  }
+  if (g_main_fd < 0) g_main_fd = fd;
   if (p.hold) s->in_hold_sent = g_reqlen;
   for (auto &ou : p.outs) {
     OutItem it;
@@ -386,6 +428,8 @@ static void run_request(const Request &rq, Plan &p, Got &g) {
   K().addrs[3000] = ab;
   if (p.want_fd >= 0) K().socket_fd_script.push_back(p.want_fd);
   g_cb_rc = p.cb_rc;
+  g_socket_no = 0;
+  g_main_fd = -1;
   g_intr_at = p.intr_at_recv;
   g_interrupted = false;
   K().on_recv = on_recv_hook;
@@ -397,6 +441,7 @@ static void run_request(const Request &rq, Plan &p, Got &g) {
   if (rq.has_body) expect += rq.body;
   g_reqlen = expect.size();
   void *addrs = shim_mkaddrs(1, &port);
+  void *bgaddrs = nullptr;
   std::vector<const char *> hn, hv;
   for (auto &h : rq.hdrs) {
     hn.push_back(h.first.c_str());
@@ -412,6 +457,18 @@ static void run_request(const Request &rq, Plan &p, Got &g) {
     aw::Arm arm;
     g.h = shim_http_request(addrs, rq.method.c_str(), rq.path.c_str(), hn.size(), hn.data(), hv.data(), rq.has_body ? body : nullptr,
                             rq.has_body ? rq.body.size() : 0, p.limit, http_cb, nullptr);
+    BgGot bg;
+    BG = &bg;
+    if (g.h && p.bg_delay >= 0) {
+      AddrBehav ab2;
+      ab2.kind = CB_OK_NOW;
+      K().addrs[3001] = ab2;
+      int port2 = 3001;
+      bgaddrs = shim_mkaddrs(1, &port2);
+      bg.h = shim_http_request(bgaddrs, "GET", "/bg", 0, nullptr, nullptr, nullptr, 0, 100, bg_cb, nullptr);
+      if (!bg.h) X->fail("request-refused", "the second, concurrent http_request returned NULL");
+      X->cls.insert("two-requests-in-flight");
+    }
     if (!g.h)
       X->fail("request-refused", "http_request returned NULL without an allocation failure");
     else {
@@ -419,7 +476,7 @@ static void run_request(const Request &rq, Plan &p, Got &g) {
         http_cancel_cb(nullptr);
       else if (p.cancel_at > 0)
         g.timer = shim_timer_register(http_cancel_cb, nullptr, (long)(p.cancel_at / 1000000), (long)(p.cancel_at % 1000000));
-      for (int i = 0; i < 200000 && !g.callbacks && !g.cancelled && !X->failed; i++) {
+      for (int i = 0; i < 200000 && ((!g.callbacks && !g.cancelled) || (bg.h && !bg.callbacks)) && !X->failed; i++) {
         K().stuck = false;
         // between two turns of its loop the application may have done anything, e.g. left ERANGE in errno
         {
@@ -457,6 +514,13 @@ static void run_request(const Request &rq, Plan &p, Got &g) {
         }
       }
       if (!g.callbacks && !g.cancelled && !X->failed) X->fail("livelock", "request neither completed nor failed within 200000 loop turns");
+      if (bg.h && !bg.callbacks) {  // the application gives up on the second request as well
+        shim_http_cancel(bg.h);
+        bg.h = nullptr;
+      } else if (bg.h && !X->failed) {
+        if (bg.callbacks != 1) X->fail("callback-twice", "the concurrent request called back " + std::to_string(bg.callbacks) + " times");
+        else if (!bg.ok) X->fail("concurrent-request-corrupted", "a second request in flight at the same time (fixed response: 200, X-Bg: one, Y-Bg: two, 4-byte body) was delivered wrongly: " + bg.why);
+      }
       // the loop runs on for a while: whatever the library left registered gets its chance to fire on the finished request
       if (!X->failed) {
         g_sentinel = 0;
@@ -479,7 +543,8 @@ static void run_request(const Request &rq, Plan &p, Got &g) {
   }
   // request bytes as seen by the server
   std::string sent;
-  for (auto &kv : K().socks) sent += kv.second.sent;
+  for (auto &kv : K().socks)
+    if (p.bg_delay < 0 || kv.first == g_main_fd) sent += kv.second.sent;
   if (!X->failed && p.hold && g.callbacks && !g.is_null) {
     if (sent != expect) {
       size_t i = 0;
@@ -500,8 +565,10 @@ static void run_request(const Request &rq, Plan &p, Got &g) {
   {
     aw::Arm arm;
     shim_freeaddrs(addrs);
+    if (bgaddrs) shim_freeaddrs(bgaddrs);
   }
   free(body);
+  BG = nullptr;
 }
 // Runs in the child's last atexit handler, after the library's own atexit clean-up (event layer tables, object pools).
 static void leak_check(Outcome &o) {
@@ -527,6 +594,8 @@ static void parse_common(const Case &c, Plan &p, size_t bodylen) {
     } else if (op.k == "out" && p.outs.size() < 40) {
       static const int T[] = {OUT_ACCEPT, OUT_ACCEPT, OUT_EAGAIN, OUT_EINTR, OUT_BLOCK, OUT_ERR};  // index 5 (the connection breaks while the request is being sent) is only generated for C08
       p.outs.push_back({T[(size_t)(((A(0) % 6) + 6) % 6)], std::min<int64_t>(std::max<int64_t>(A(1), 1), 100000), std::min<int64_t>(std::max<int64_t>(A(2), 0), 2000000)});
+    } else if (op.k == "bg") {
+      p.bg_delay = std::max<int64_t>(0, std::min<int64_t>(A(0), 5000000));
     } else if (op.k == "intr") {
       p.intr_at_recv = std::max<int64_t>(1, std::min<int64_t>(A(0), 100000));
     } else if (op.k == "cbrc") {
@@ -713,6 +782,7 @@ static void gen_response_ops(Case &c, int tier, bool hostile) {
   c.push_back(Op("conn", {*range<int>(0, 1), *rc::gen::elementOf(std::vector<int64_t>{0, 1, 1000, 30000})}));
   if (*range<int>(0, 4) == 0) c.push_back(Op("fd", {*range<int>(0, 10)}));
   if (*range<int>(0, 5) == 0) c.push_back(Op("cbrc", {*rc::gen::elementOf(std::vector<int64_t>{1, 7, -1, -3})}));
+  if (!hostile && *range<int>(0, 3) == 0) c.push_back(Op("bg", {*rc::gen::elementOf(std::vector<int64_t>{0, 1, 500, 1000, 1500, 2500, 30000})}));  // a second request is in flight at the same time
   if (*range<int>(0, 2) == 0) {  // the kernel takes the request in pieces
     int no = *range<int>(1, 8);
     for (int i = 0; i < no; i++)
